@@ -55,6 +55,11 @@ var metas = map[string]PropMeta{
 		NotDecided:  []string{},
 		Assumptions: []string{"Ref.GetURL() != nil characterises a $ref response (go-openapi/jsonreference)"},
 	},
+	"C20": {
+		Explanation: "TERM-REC over the SCC {Schema, inferMap, inferArray, inferFromRef} with measures chosen by search (schema being classified); GUARD-SIMPLEDEF, GUARD-FLAGIMPL, GUARD-EXCL (truth table over the atoms of the defining expressions, has* flags and helper predicates expanded), COV-INHERITS, GUARD-COPYORDER (write-effect summaries of the calls following the copy).",
+		NotDecided:  []string{"agreement of the classification with the documented rules on concrete schemas", "spec.ExpandSchema behaviour (trusted)"},
+		Assumptions: []string{"flags start false (zero value) and are assigned once outside the wholesale copy", "the schema graph reachable through $ref is finite, so a visited set of $ref strings bounds the recursion"},
+	},
 	"C16": {
 		Explanation: "Write-effect summaries: for New and each of the exported *Spec methods, the transitive set of stores (assignments to fields/elements/pointees, delete, in-place external mutators such as sort.* and spec.Expand*) is computed with targets as access paths; stores into locals created in the call and into value copies are dropped; what remains must be empty. No goroutine/channel operation is reachable; the pattern/enum getters return maps allocated in the call.",
 		NotDecided:  []string{"element slices shared by the cloned enum maps (outside the statement)", "thread-safety of the read-only external callees (trusted base)"},
